@@ -483,6 +483,45 @@ def rows_where_constant(v0, v1, form, p, q, r):
     return 'ok'
 
 
+REGEX_SUBJECTS = ['Assets:Bank', 'assets:bank', 'ASSETS:BANK', 'Expenses:Food', '']
+REGEX_PATTERNS = ['bank', 'BANK', 'Bank', '^assets', 'Food$', 'x']
+REGEX_STATEMENTS = [
+    'SELECT s ~ {p} AS m, grep({p}, s) AS g, s !~ {p} AS n, subst({p}, "_", s) AS u FROM #t',
+    'SELECT grep({p}, s) AS g, s ~ {p} AS m, subst({p}, "_", s) AS u, s !~ {p} AS n FROM #t',
+    'SELECT grep({p}, s) AS g FROM #t WHERE s ~ {p}',
+    'SELECT s FROM #t WHERE grep({p}, s) IS NOT NULL AND s !~ {p}',
+]
+
+
+@cond('C01.regex.families', quick=120,
+      bounds=f'one-row table with s from {REGEX_SUBJECTS}; pattern from {REGEX_PATTERNS}; statements using the same pattern text with '
+             'the case-insensitive operators (~, !~) and the case-sensitive functions (grep, subst) in either order, two '
+             'statements one after the other in one process: every cell equals its re definition (search ignoring case / '
+             'search respecting case), whichever family used the pattern first',
+      symbolic='(none)', enumerated='subject, pattern, first and second statement',
+      params={'si': int, 'pi': int, 'k1': int, 'k2': int},
+      note='solver-enumerated and executed natively (regular expressions on symbolic strings are out of reach, R5)')
+def regex_families(si, pi, k1, k2):
+    import re
+    s, p = pick(REGEX_SUBJECTS, si), pick(REGEX_PATTERNS, pi)
+    k1, k2 = enum_int(k1, 0, len(REGEX_STATEMENTS) - 1), enum_int(k2, 0, len(REGEX_STATEMENTS) - 1)
+
+    def run():
+        import beanquery.query_env  # noqa: F401  (registers grep / subst)
+        m = re.search(p, s, re.IGNORECASE) is not None
+        sensitive = re.search(p, s)
+        g = sensitive.group(0) if sensitive else None
+        u = re.sub(p, '_', s)
+        want = [[(m, g, not m, u)], [(g, m, u, not m)], [(g,)] if m else [], [(s,)] if (g is not None and not m) else []]
+        conn = connect(t=HTable('t', [('s', str)], [(s,)]))
+        for k in (k1, k2):
+            got = conn.execute(parse(REGEX_STATEMENTS[k].format(p="'" + p + "'"))).fetchall()
+            if got != want[k]:
+                return f'regex-cell-differs-from-its-definition (statement {k})'
+        return 'ok'
+    return native(run)
+
+
 class _UTable(HTable):
     def update(self, **kwargs):
         return self
